@@ -43,6 +43,15 @@ def divide {ω} (d : Dist ω) (chunks : List Nat) : Except String (List (Dist ω
 /-- `numpy.outer(a, b)` row-major -/
 def outer {ω} [Mul ω] (a b : List ω) : List (List ω) := a.map fun x => b.map fun y => x * y
 
+/-- `MultidimensionalDistribution.weights` for any number of factors, flattened row-major (first factor slowest):
+entry `(i₀, i₁, …)` is `w₀[i₀] · w₁[i₁] · …`; the array's shape is the list of factor lengths
+(`outer(w₀, w₁)`, then `weights[..., None] * wₖ` for every further factor) -/
+def outerFlat {ω} [Mul ω] [OfNat ω 1] : List (List ω) → List ω
+  | [] => [1]
+  | w :: rest => w.flatMap fun x => (outerFlat rest).map fun y => x * y
+
+def weightsShape {ω} (factors : List (List ω)) : List Nat := factors.map List.length
+
 /-- `stack(meshgrid(a, b, indexing="ij"), -1)` row-major -/
 def meshgrid (a b : List Rat) : List (List (Rat × Rat)) := a.map fun x => b.map fun y => (x, y)
 
